@@ -12,16 +12,15 @@ from . import c08
 
 PROPERTY = 'C19'
 EXPLANATION = (
-    'Decided from source: (C19.1) the four tables cohere: bit width = 10*log2(base), bound{a,b} = 2^(min width - 1) with decimal '
-    'unbounded and all six pairs present, permitted digits = the digit set of the base (both cases for hex); (C19.2) the twelve '
-    'wrappers: name X2Y <-> convert_bases(number, X, Y[, places]), places forwarded exactly when Y is not decimal, return '
-    'annotation Text vs Number; (C19.3) guards as decision tables at their critical points: places (0, 1, 10, 11 -> #NUM!, boolean '
-    '-> #VALUE!) on every path including negative results, window (-bound-1, -bound, bound-1, bound per pair), the 10-digit length '
-    'guard, a digit-set guard that dominates the conversion, boolean rejection before numeric coercion, padding only for '
-    'non-negative results and #NUM! when places is too small; (C19.4) origin/destination roles in conversion(): parse base and '
-    'sign mask from the origin, wrap and formatter from the destination, upper-cased digits; (C19.5) the module is imported by the '
-    'package (shares C08.6).'
-    ' (C19.3) also: digit strings "false"/"FALSE"/"true" are invalid digits - decided with Text.__bool__ interpreted as written.')
+    'Decided from source by interpreting the twelve conversion functions as the evaluator calls them (registered '
+    'wrapper, value classes, engineering helpers as written) against an independent reference implementation of the '
+    "ten-digit two's-complement conversions: (C19.1) window boundaries (-bound-1, -bound, -bound+1, bound-1, bound, "
+    'bound+1) of every pair of bases; (C19.2) small non-negative values through every function; (C19.3) places '
+    '(exact fit, wider, 10, too small, 0, 11, negative, boolean; with a negative number) and invalid inputs '
+    '(foreign digit, fraction, sign, blank, underscore, "false"/"FALSE", 11 digits, empty text, boolean number): '
+    "#NUM! / #VALUE! exactly where the reference says; (C19.4) small negative values: two's complement in the width "
+    'of the destination, sign read in the width of the origin; (C19.5) the module is imported by the package '
+    '(shares C08.6).')
 NOT_DECIDED = 'exact digits for each integer (that is a run, even for the 1024-value binary window)'
 TRUSTED = ['bin/oct/hex formatter prefixes of two characters']
 
